@@ -254,6 +254,13 @@ package channel
 //@   noverify
 //@   flows [C11] p only to authenticateTelnet#1.arg2
 
+// the failure cleanup of Open goes through the channel's own Close (which stops the reader and has the forced-close
+// fallback for a reader blocked in a transport read), not through the transport directly
+//@ func (*Channel).Open$1 [C07 C10]
+//@   modifies implClosed, chan(c.Errs), alloc()
+//@   at call! channel.(*Channel).Close#1 assert #a-failed-open-is-cleaned-up-by-the-channels-own-close reterr != nil && recv == c
+//@   ensures #failed-open-closes-the-transport reterr != nil ==> implClosed
+
 //@ func (*Channel).Open [C07 C10 C11]
 //@   requires RI(c.Q) && c.Errs != c.Q.depthChan
 //@   ensures #queue-invariant-kept RI(c.Q)
